@@ -66,14 +66,17 @@ def SC.over (c : SC) (n : Nat) : Bool :=
   | some m => decide (m < c.already + n)
   | none => false
 
-/-- `SizeConstraintList.bytes_parsed(path, size)` (not anticipating): outermost first; the ones before
-the violated one have already been charged `size`; the violated one becomes obsolete, the rest of its
-region is consumed, then `SizeConstraintExceededError`. -/
+/-- `SizeConstraintList.bytes_parsed(path, size)` (not anticipating): outermost first.  When region `c` is
+violated it becomes obsolete, the rest of it (`max - already` bytes) is consumed, the enclosing regions —
+already charged `size` — are corrected to have been charged only those consumed bytes, the regions opened
+inside `c` end with it, then `SizeConstraintExceededError`. -/
 def bpGo (path : Path) (size : Nat) : List SC → List SC → St → R Unit
   | done, [], s => .ok ((), { s with scs := done })
   | done, c :: rest, s =>
     if c.over size then
-      (consume ((c.max.getD 0) - c.already) { s with scs := done ++ rest }).bind fun _ s' =>
+      let consumed := (c.max.getD 0) - c.already
+      let outer := done.map fun d => { d with already := d.already - (size - consumed) }
+      (consume consumed { s with scs := outer }).bind fun _ s' =>
         .error (.exceeded c.id c.path (c.max.getD 0) c.already path (c.already + size - (c.max.getD 0)), s')
     else bpGo path size (done ++ [c.bump size]) rest s
 
@@ -106,7 +109,9 @@ def setListed (abort : Bool) (id : Nat) (cpath : Path) (n : Nat) (s : St) : R Un
 def findSC (id : Nat) (scs : List SC) : Option SC := scs.find? (·.id = id)
 def removeSC (id : Nat) (scs : List SC) : List SC := scs.filter (fun c => !(c.id = id))
 
-/-- `SizeConstraint.assert_done` given the constraint's current data -/
+/-- `SizeConstraint.assert_done` given the constraint's current data (`s.scs`: the list without it).
+Warn mode: the padding is charged to the enclosing regions like a field (which may overrun one of them),
+then consumed. -/
 def assertDoneSC (abort : Bool) (c : SC) (s : St) : R Unit :=
   match c.max with
   | none => crash "AssertionError" "assert_done: size_max is None" s
@@ -115,7 +120,10 @@ def assertDoneSC (abort : Bool) (c : SC) (s : St) : R Unit :=
     else
       let e := Err.subceeded c.id c.path m c.already
       if abort then .error (e, s)
-      else consume (m - c.already) (emitW e s)
+      else
+        let s := emitW e s
+        if c.already < m then (bytesParsed c.path (m - c.already) s).bind fun _ s => consume (m - c.already) s
+        else .ok ((), s)
 
 def assertDone (abort : Bool) (id : Nat) (s : St) : R Unit :=
   match findSC id s.scs with
@@ -266,7 +274,11 @@ def decode (abort : Bool) : Ty → Path → Option Int → St → R Val
   | .union name arms, path, sel, s =>
     let s := emitM ⟨path, .named name false, none, "", 0⟩ s
     match selectArm arms.keys sel with
-    | none => crash "AssertionError" "process_tpmu: selector selects no member" s
+    | none =>
+      -- selector selects no member: `ValueConstraintViolatedError` in both modes (the layout is unknowable)
+      (match sel with
+       | some sv => .error (.value path name sv, s)
+       | none => crash "TypeError" "process_tpmu: int(None) while reporting the selection error" s)
     | some an => decodeArm abort arms name an path s
   | .bad r, _, _, s => crash "ModelError" ("untranslatable type " ++ r) s
 termination_by structural t => t
